@@ -154,37 +154,23 @@ Section D.
     rewrite !dyne_mean_kept by assumption. unfold Model.textbook_mean, vec2. fold W. cbv zeta. ring.
   Qed.
 
-  (* post-selected heterodyne: the bosonic simulator at value 2*alpha is the Gaussian one at alpha *)
-  Theorem heterodyne_select_scaled (r : vec) (V : mat) k (are aim : K) :
-    b_post_select_heterodyne K k0 k1 kadd kmul ksub kopp kdiv r V k
-       (two K k1 kadd * are) (two K k1 kadd * aim)
+  (* post-selected heterodyne: the same value gives the same conditional state on the Gaussian and
+     the bosonic simulator, for every register size, mode and value *)
+  Theorem heterodyne_select_agree (r : vec) (V : mat) k (are aim : K) :
+    b_post_select_heterodyne K k0 k1 kadd kmul ksub kopp kdiv r V k are aim
     = g_post_select_heterodyne K k0 k1 kadd kmul ksub kopp kdiv r V k are aim.
   Proof. reflexivity. Qed.
 
-  (* they agree on the same value when it is 0 *)
-  Theorem heterodyne_select_agree_at_zero (r : vec) (V : mat) k :
-    b_post_select_heterodyne K k0 k1 kadd kmul ksub kopp kdiv r V k k0 k0
-    = g_post_select_heterodyne K k0 k1 kadd kmul ksub kopp kdiv r V k k0 k0.
-  Proof.
-    unfold b_post_select_heterodyne, g_post_select_heterodyne, b_post_select_generaldyne.
-    replace (two K k1 kadd * k0) with k0 by (unfold two; ring). reflexivity.
-  Qed.
-
-  (* the covariance never depends on the value *)
-  Theorem heterodyne_select_cov_agree (r : vec) (V : mat) k (are aim : K) :
-    snd (b_post_select_heterodyne K k0 k1 kadd kmul ksub kopp kdiv r V k are aim)
-    = snd (g_post_select_heterodyne K k0 k1 kadd kmul ksub kopp kdiv r V k are aim).
-  Proof. reflexivity. Qed.
-
-  (* the difference of the two conditional means on an unmeasured quadrature i *)
-  Theorem heterodyne_select_gap (r : vec) (V : mat) k (are aim : K) i : deleted k i = false ->
+  (* the entry point before the fix handed alpha over unscaled: its gap to the Gaussian result on an
+     unmeasured quadrature i *)
+  Theorem heterodyne_select_gap_old (r : vec) (V : mat) k (are aim : K) i : deleted k i = false ->
     let W := inv2 (madd (blockC V k) (sig_het K k0 k1)) in
     fst (g_post_select_heterodyne K k0 k1 kadd kmul ksub kopp kdiv r V k are aim) i
-    = fst (b_post_select_heterodyne K k0 k1 kadd kmul ksub kopp kdiv r V k are aim) i
+    = fst (b_post_select_heterodyne_old K k0 k1 kadd kmul ksub kopp kdiv r V k are aim) i
       + ((V i (2 * k)%nat * W 0%nat 0%nat + V i (S (2 * k)) * W 1%nat 0%nat) * are
          + (V i (2 * k)%nat * W 0%nat 1%nat + V i (S (2 * k)) * W 1%nat 1%nat) * aim).
   Proof.
-    intros Hi W. unfold g_post_select_heterodyne, b_post_select_heterodyne, b_post_select_generaldyne.
+    intros Hi W. unfold g_post_select_heterodyne, b_post_select_heterodyne_old, bc_post_select_heterodyne, b_post_select_generaldyne.
     simpl fst. rewrite !dyne_mean_kept by assumption. unfold Model.textbook_mean, vec2, two. fold W. cbv zeta. ring.
   Qed.
 
